@@ -126,6 +126,9 @@ func c02Run(r *zsim.Run) {
 	}
 	r.Logf("timeout=%v maxConns=%d maxBytes=%d", timeout, maxConns, maxBytes)
 	clients := 1 + o.Intn(6)
+	if r.Tier == "thorough" && o.Intn(4) == 0 {
+		clients = 7 + o.Intn(6) // the thorough tier also draws larger runs
+	}
 	done := 0
 	nextID := 0
 	for c := 0; c < clients; c++ {
